@@ -52,7 +52,7 @@ ASSUMPTIONS = [
 MINIMA = {"quick": {"entry_point_runs": 250, "repo_open_events": 300, "error_path_runs": 60, "cli_runs": 10}, "thorough": {"entry_point_runs": 2500}}
 MECH = "read-only"
 DATA = os.path.join(os.environ.get("VF_REPO", "/repo"), "tests", "data")
-ENTRY = ["vmdk-desc", "vmdk-delta", "vmdk-mono", "vhdx-diff", "vhdx-path", "hdd", "hdd-abs", "hdd-snap", "vmtar", "hyperv", "xmlcfg", "vmx", "cli", "cli-errors", "cli-interrupt", "streams", "filehandles"]
+ENTRY = ["vmdk-desc", "vmdk-delta", "vmdk-mono", "vhdx-diff", "vhdx-path", "hdd", "hdd-abs", "hdd-snap", "vmtar", "hyperv", "xmlcfg", "vmx", "cli", "cli-errors", "cli-interrupt", "streams", "filehandles", "hdd-odd-bundles"]
 
 
 def plan(tier: str, seed: int) -> list[dict]:
@@ -61,7 +61,7 @@ def plan(tier: str, seed: int) -> list[dict]:
     for ep in ENTRY:
         for r in range(reps):
             cases.append({"k": ep, "r": r, "fault": None})
-            if ep not in ("cli", "cli-errors", "cli-interrupt", "streams", "xmlcfg", "vmx") and r % 2 == 0:
+            if ep not in ("cli", "cli-errors", "cli-interrupt", "streams", "xmlcfg", "vmx", "hdd-odd-bundles") and r % 2 == 0:
                 cases.append({"k": ep, "r": r, "fault": ["truncate", "garbage", "missing", "ioerror"][(r // 2) % 4]})
     cases.append({"k": "repo-tests", "r": 0, "fault": None, "weight": 60})
     cases.append({"k": "static-scan", "r": 0, "fault": None})
@@ -278,6 +278,23 @@ def build_and_run(k: str, rng, ctx, root: Path, fault, res, phase: str = "both")
             whds_.build_hds(rng, version=2, m_sectors=8, nclusters=6, tag=7, in_use=rng.random() < 0.5)[0].write_to(root / "d.hds")
             wvmdk.build_hosted(rng, capacity=300, grain=8, ngte=64, tag=8)[0].write_to(root / "s.vmdk")
             wvmdk.build_flat(rng, nsectors=rng.randrange(8, 300), tag=9)[0].write_to(root / "raw-flat.vmdk")
+        elif k == "hdd-odd-bundles":
+            # bundles in states an examiner meets: only the backup copy of the descriptor is left, the descriptor is empty, an
+            # image is missing, there are stray lock / temp files
+            from vf.writers import hds as whds_
+
+            g_ = whds_.DEFAULT_TOP
+            sfb, _, mb = whds_.build_hds(rng, version=2, m_sectors=8, nclusters=6, tag=3)
+            xml = whds_.descriptor_xml([{"start": 0, "end": mb["size"] // 512, "images": [{"guid": g_, "type": "Compressed", "file": "d.hds"}]}], [(g_, whds_.NULL_GUID)])
+            for name_, desc, backup in (("backup-only.hdd", None, xml), ("empty-desc.hdd", "", xml), ("both.hdd", xml, xml), ("neither.hdd", None, None)):
+                bd = root / name_
+                bd.mkdir()
+                sfb.write_to(bd / "d.hds")
+                if desc is not None:
+                    (bd / "DiskDescriptor.xml").write_text(desc)
+                if backup is not None:
+                    (bd / "DiskDescriptor.xml.Backup").write_text(backup)
+                (bd / "DiskDescriptor.xml.lck").write_text("")
         elif k == "xmlcfg":
             (root / "vm.ovf").write_text(wcfg.gen_ovf(rng)[0])
             (root / "vm.vbox").write_text(wcfg.gen_vbox(rng)[0])
@@ -384,6 +401,14 @@ def build_and_run(k: str, rng, ctx, root: Path, fault, res, phase: str = "both")
 
                     last = call(f)
                 return last
+            if k == "hdd-odd-bundles":
+                from dissect.hypervisor.disk.hdd import HDD
+
+                last = None
+                for name_ in ("backup-only.hdd", "empty-desc.hdd", "both.hdd", "neither.hdd"):
+                    for target in (root / name_, root / name_ / "d.hds", root / name_ / "DiskDescriptor.xml"):
+                        last = call(lambda: HDD(target).open().read(4096))
+                return last
             if k == "xmlcfg":
                 from dissect.hypervisor.descriptor.ovf import OVF
                 from dissect.hypervisor.descriptor.pvs import PVS
@@ -444,9 +469,16 @@ def build_and_run(k: str, rng, ctx, root: Path, fault, res, phase: str = "both")
                     out = out_dir / "plain.bin"
                     args = [str(env), "-ks", str(root / "encryption.info"), "-o", str(out)]
                 else:
-                    variant = rng.choice(["outdir-evidence", "outdir-sub", "wrongkey", "missing-ks", "missing-env", "out-in-evidence"])
+                    variant = rng.choice(["outdir-evidence", "outdir-sub", "wrongkey", "missing-ks", "missing-env", "out-in-evidence", "tampered", "tampered"])
+                    if variant == "tampered":
+                        # an envelope that fails authentication (flipped ciphertext / tag byte): the tool stops; nothing but --output
+                        # may appear anywhere (the audit hook sees every open-for-write from repository frames)
+                        rawt = bytearray(env.read_bytes())
+                        rawt[rng.choice([4096, 4096 + (len(rawt) - 8192) // 2, len(rawt) - 4096 + 32])] ^= 0x40
+                        env = out_dir / ("tampered-" + env.name)
+                        env.write_bytes(bytes(rawt))
                     out = {"outdir-evidence": root, "outdir-sub": root / "subdir", "wrongkey": out_dir / "w.bin", "missing-ks": out_dir / "m.bin",
-                           "missing-env": out_dir / "e.bin", "out-in-evidence": root / "explicit-output.bin"}[variant]
+                           "missing-env": out_dir / "e.bin", "out-in-evidence": root / "explicit-output.bin", "tampered": out_dir / "t.bin"}[variant]
                     ks = root / ("other.info" if variant == "wrongkey" else "nope.info" if variant == "missing-ks" else "encryption.info")
                     args = [str(root / "nope.ve") if variant == "missing-env" else str(env), "-ks", str(ks), "-o", str(out)]
                     res["sets"].setdefault("cli_variants", []).append(variant)
